@@ -50,7 +50,8 @@ type TreeScript struct {
 	Scribble   bool    `json:"scribble,omitempty"`    // the harness edits every value a lookup returned, after judging it
 	Store      string  `json:"store"`                 // mem | lvlmem | lvlp | p | lvlpp
 	Cache      string  `json:"cache"`                 // own | shared
-	Observe    string  `json:"observe,omitempty"`     // "" = harness reads through the trie under test; "fresh" = through throw-away trie objects
+	Observe    string  `json:"observe,omitempty"`     // "" = harness reads through the trie under test; "fresh" = through throw-away trie objects; "clone" = through util.CloneMPT
+	IterAll    bool    `json:"iterall,omitempty"`     // content reads alternate between Iterate(values), Iterate(all node types) and IterateFrom(root, all node types)
 	Ver        int64   `json:"ver"`
 	Faults     []Fault `json:"faults,omitempty"`
 	Ops        []Op    `json:"ops"`
@@ -231,6 +232,7 @@ type world struct {
 	states                        map[string]bool
 	roots                         map[string]string // C02 injectivity: root -> content digest
 	mark                          int
+	iterN                         int
 	savedFailRead, savedFailWrite map[int]bool
 }
 
@@ -449,10 +451,16 @@ func firstLine(s string) string {
 type kv struct{ p, v string }
 
 // content reads the full content through Iterate.
-func content(m *util.MerklePatriciaTrie) (map[string]string, []kv, error) {
+func content(m *util.MerklePatriciaTrie) (map[string]string, []kv, error) { return contentVia(m, 0) }
+
+const allNodeTypes = util.NodeTypeValueNode | util.NodeTypeLeafNode | util.NodeTypeFullNode | util.NodeTypeExtensionNode
+
+// contentVia: mode 0 = Iterate over value nodes only; 1 = Iterate over all node types (value nodes picked out);
+// 2 = IterateFrom(root) over all node types (Iterate when the trie is empty).
+func contentVia(m *util.MerklePatriciaTrie, mode int) (map[string]string, []kv, error) {
 	out := map[string]string{}
 	var list []kv
-	err := m.Iterate(context.Background(), func(ctx context.Context, path util.Path, key util.Key, node util.Node) error {
+	h := func(ctx context.Context, path util.Path, key util.Key, node util.Node) error {
 		vn, ok := node.(*util.ValueNode)
 		if !ok || vn == nil {
 			return nil
@@ -462,7 +470,16 @@ func content(m *util.MerklePatriciaTrie) (map[string]string, []kv, error) {
 		list = append(list, kv{p, v})
 		out[p] = v
 		return nil
-	}, util.NodeTypeValueNode)
+	}
+	var err error
+	switch root := m.GetRoot(); {
+	case mode == 2 && len(root) > 0:
+		err = m.IterateFrom(context.Background(), root, h, allNodeTypes)
+	case mode >= 1:
+		err = m.Iterate(context.Background(), h, allNodeTypes)
+	default:
+		err = m.Iterate(context.Background(), h, util.NodeTypeValueNode)
+	}
 	return out, list, err
 }
 
